@@ -11,6 +11,7 @@ that every database the reader builds is well formed, whatever the file.  `db.to
 list of entries the specification talks about.
 -/
 import PybtexModel.Lemmas.Filtered
+import PybtexModel.Lemmas.CitationSpelling
 
 namespace Pybtex.Props
 open Pybtex Spec
@@ -331,7 +332,9 @@ the property's quantifier grants.  (2) The FILTERED reading both engines use sto
 whose key matches a citation under a spelling taken from the citation list, so `entry.key` —
 what the Python engine emits — is a citation's spelling; when the citations of that key are
 spelled consistently it is that spelling.  (Nothing of the kind holds for the unfiltered
-reading, which has no citation list to take spellings from.) -/
+reading, which has no citation list to take spellings from.)  This theorem is PARTIAL; the exact
+rule for an arbitrary database is `C05_spelling_exact`, the full clause for the engines' reading under
+the quantifier's consistent-spelling proviso is `C05_citation_spelling_engines`. -/
 theorem C05_citation_spelling_wins (file : List (Str × Entry)) (hf : ∀ p ∈ file, EntryWF p.2)
     (citations : List Str) :
     ∃ db rep, BibData.readFile (some citations) file = some (db, rep) ∧
@@ -357,6 +360,158 @@ theorem C05_citation_spelling_wins_nonvacuous :
     -- the file says `c1`, `C2`, `P`; the citations say `C1`, `c2`: the citations win, the uncited parent keeps its own
     pythonEngine exFile (strs ["C1", "c2"]) 2 = some ⟨(strs ["C1", "c2", "P"]), []⟩ ∧
     bibtexEngine exFile (strs ["C1", "c2"]) 2 = some ⟨(strs ["C1", "c2", "P"]), []⟩ := by decide
+
+/-- **Which spelling the resolved list carries — the exact rule, for every database, citation list
+and threshold** (no restriction on where a wildcard stands).  With `S` the citation list in which
+every `*` has been replaced, in place, by the database keys in database order:
+(1) every key of the cited part is spelled as at the FIRST position of `S` that equals it up to
+case — so it is the citation's spelling exactly when an explicit citation of the key stands before
+the first `*` (or the database does not hold the key), and the DATABASE's spelling otherwise;
+(2) every element of `S` is represented; (3) every appended (cross-referenced) key is spelled as
+in the database; (4) consequence: for a wildcard after the explicit citations `pre`, a database key
+not cited in `pre` is in the result in the database's spelling and in NO other spelling — a citation
+of it in another letter case after the `*` does not win (`['*', 'DOS']` against `dos` gives `dos`).
+So "the spelling in the citation list wins" is false of `add_extra_citations` on an arbitrary
+database; for the databases the engines build (read filtered by the citations) see
+`C05_citation_spelling_engines`. -/
+theorem C05_spelling_exact (db : BibData) (hdb : DbWF db) (citations : List Str) (minCrossrefs : Int) :
+    (∀ k ∈ db.expandWildcard citations,
+        (substStar db.toS citations).find? (fun x => keq x k) = some k) ∧
+    (∀ x ∈ substStar db.toS citations, ∃ k ∈ db.expandWildcard citations, keq x k = true) ∧
+    (∀ k ∈ (db.crossreferenced (db.expandWildcard citations) minCrossrefs).1, k ∈ CIDict.iter db.entries) ∧
+    (∀ pre rest : List Str, citations = pre ++ Pybtex.star :: rest → Spec.star ∉ pre →
+      ∀ k ∈ CIDict.iter db.entries, cited pre k = false →
+        k ∈ (db.addExtraCitations citations minCrossrefs).1 ∧
+        ∀ c, keq c k = true → c ≠ k → c ∉ (db.addExtraCitations citations minCrossrefs).1) := by
+  refine ⟨?_, ?_, ?_, ?_⟩
+  · intro k hk
+    rw [expandWildcard_spec hdb] at hk
+    exact dedupFrom_first hk
+  · intro x hx
+    rw [expandWildcard_spec hdb]
+    rcases dedupFrom_complete [] _ hx with h | h
+    · simp at h
+    · obtain ⟨k, hk, hxk⟩ := List.any_eq_true.1 h
+      exact ⟨k, hk, hxk⟩
+  · intro k hk
+    obtain ⟨_, -, P, hmemP, -, hkey⟩ := (C05_threshold db hdb _ minCrossrefs).2.2.2 k hk
+    rw [iter_entries hdb, ← hkey]
+    exact List.mem_map.2 ⟨P, hmemP, rfl⟩
+  · intro pre rest hcit hpre k hk hnc
+    subst hcit
+    have hmem : k ∈ (db.addExtraCitations (pre ++ Pybtex.star :: rest) minCrossrefs).1 := by
+      obtain ⟨tail, ht⟩ := (C05_wildcard_db_order db hdb pre rest hpre).1
+      simp only [BibData.addExtraCitations]
+      rw [ht]
+      simp only [List.mem_append, List.mem_filter, Bool.not_eq_true']
+      exact Or.inl (Or.inl (Or.inr ⟨hk, hnc⟩))
+    refine ⟨hmem, fun c hck hne hc => hne ?_⟩
+    exact eq_of_nodup_lower (C05_no_dup db hdb _ minCrossrefs) hc hmem hck
+
+theorem C05_spelling_exact_nonvacuous :
+    DbWF (readAllOf exFile) ∧
+    -- the database says `c1`, `C2`, `P`: `C1` cited before the wildcard keeps the citation's spelling,
+    -- `c2` and `p` cited after it come out in the database's spelling
+    ((readAllOf exFile).addExtraCitations (strs ["C1", "*", "c2", "p"]) 1).1 = strs ["C1", "C2", "d", "x", "P"] ∧
+    (substStar (readAllOf exFile).toS (strs ["C1", "*", "c2", "p"])).find? (fun x => keq x "C2".toList) = some "C2".toList ∧
+    cited (strs ["C1"]) "C2".toList = false := by decide
+
+/-- **The spelling in the citation list wins — for the reading both engines use, wherever a
+wildcard stands, under the quantifier's proviso.**  Let the file be read FILTERED by the citations
+(what both engines do).  For every explicit citation `c` (not `*`) whose citations are spelled
+consistently (every citation equal to `c` up to case IS `c` — the quantifier's "repeated citations
+of a key are spelled consistently"): `c` itself is in the resolved list; it is the only spelling of
+that key there; every key the BibTeX engine emits (`cite$`) and every key the Python engine emits
+(`entry.key`) that equals `c` up to case is `c`; and when the file holds an entry for `c`, both
+engines emit `c`.  (The filtered database stores a cited key under a citation's spelling —
+`readFile_spelling` — so even a `*` in front of `c` contributes `c`, not the file's spelling.) -/
+theorem C05_citation_spelling_engines (file : List (Str × Entry)) (hf : ∀ p ∈ file, EntryWF p.2)
+    (citations : List Str) (minCrossrefs : Int) (c : Str) (hc : c ∈ citations) (hstar : c ≠ Spec.star)
+    (hcons : ∀ c' ∈ citations, keq c' c = true → c' = c) :
+    ∃ db rep, BibData.readFile (some citations) file = some (db, rep) ∧
+      c ∈ (db.addExtraCitations citations minCrossrefs).1 ∧
+      (∀ k ∈ (db.addExtraCitations citations minCrossrefs).1, keq k c = true → k = c) ∧
+      (∃ outB outP, bibtexEngine file citations minCrossrefs = some outB ∧
+          pythonEngine file citations minCrossrefs = some outP ∧
+          (∀ k ∈ outB.keys, keq k c = true → k = c) ∧
+          (∀ k ∈ outP.keys, keq k c = true → k = c) ∧
+          ((find db.toS c).isSome = true → c ∈ outB.keys ∧ c ∈ outP.keys)) := by
+  obtain ⟨db, rep, hr, hdb, -⟩ := readFile_spec (some citations) file hf
+  have hsp := readFile_spelling citations file hr
+  have hnd := C05_no_dup db hdb citations minCrossrefs
+  -- `c` is an element of the star-substituted list
+  have hcS : c ∈ substStar db.toS citations := by
+    unfold substStar
+    rw [List.mem_flatMap]
+    exact ⟨c, hc, by simp [hstar]⟩
+  -- its representative in the cited part is `c` itself
+  have hcE : c ∈ db.expandWildcard citations := by
+    obtain ⟨k, hk, hck⟩ := (C05_spelling_exact db hdb citations minCrossrefs).2.1 c hcS
+    have hkS : k ∈ substStar db.toS citations := by
+      rw [expandWildcard_spec hdb] at hk; exact (mem_dedupFrom hk).1
+    have hkc : k = c := by
+      unfold substStar at hkS
+      rw [List.mem_flatMap] at hkS
+      obtain ⟨a, ha, hka⟩ := hkS
+      by_cases hs : a = Spec.star
+      · -- contributed by a wildcard: a stored key, spelled as cited
+        simp only [hs, if_true] at hka
+        rw [← iter_entries hdb] at hka
+        have hcit : cited citations k = true := List.any_eq_true.2 ⟨c, hc, by rw [keq_comm]; exact hck⟩
+        exact hcons k (hsp k hka hcit) (by rw [keq_comm]; exact hck)
+      · simp only [hs, if_false, List.mem_singleton] at hka
+        subst hka
+        exact hcons k ha (by rw [keq_comm]; exact hck)
+    rw [← hkc]; exact hk
+  have hcR : c ∈ (db.addExtraCitations citations minCrossrefs).1 := by
+    simp only [BibData.addExtraCitations]; exact List.mem_append_left _ hcE
+  have huniq : ∀ k ∈ (db.addExtraCitations citations minCrossrefs).1, keq k c = true → k = c :=
+    fun k hk hkc => eq_of_nodup_lower hnd hk hcR hkc
+  refine ⟨db, rep, hr, hcR, huniq, ?_⟩
+  have hrm := removeMissing_spec hdb (db.addExtraCitations citations minCrossrefs).1
+  obtain ⟨es, hes, hkeys⟩ := lookupAll_present hdb (db.addExtraCitations citations minCrossrefs).1
+  have hP : pythonEngine file citations minCrossrefs =
+      some ⟨es.map (·.key), rep ++ (db.addExtraCitations citations minCrossrefs).2 ++
+        (db.removeMissing (db.addExtraCitations citations minCrossrefs).1).2⟩ := by
+    simp only [pythonEngine, hr, BibData.removeMissingPy]
+    show (match db.lookupAll (db.removeMissing (db.addExtraCitations citations minCrossrefs).1).1 with
+      | none => none | some es => _) = _
+    rw [hrm.1, hes]
+  have hstored : ∀ k ∈ es.map (·.key), keq k c = true → k = c := by
+    intro k hk hkc
+    obtain ⟨e, he, rfl⟩ := List.mem_map.1 hk
+    have hit := lookupAll_keys hdb _ es hes e he
+    have hcit : cited citations e.key = true := List.any_eq_true.2 ⟨c, hc, hkc⟩
+    exact hcons _ (hsp _ hit hcit) hkc
+  refine ⟨_, _, by simp only [bibtexEngine, hr]; rfl, hP, ?_, hstored, ?_⟩
+  · intro k hk hkc
+    have hk' : k ∈ present db.toS (db.addExtraCitations citations minCrossrefs).1 := by rw [← hrm.1]; exact hk
+    exact huniq k (List.mem_filter.1 hk').1 hkc
+  · intro hfind
+    have hpres : c ∈ present db.toS (db.addExtraCitations citations minCrossrefs).1 :=
+      List.mem_filter.2 ⟨hcR, hfind⟩
+    refine ⟨by show c ∈ (db.removeMissing _).1; rw [hrm.1]; exact hpres, ?_⟩
+    -- some emitted key equals `c` up to case, hence is `c`
+    have : lower c ∈ (es.map (·.key)).map lower := by
+      rw [hkeys]; exact List.mem_map.2 ⟨c, hpres, rfl⟩
+    obtain ⟨k, hk, hkl⟩ := List.mem_map.1 this
+    have hkc : k = c := hstored k hk ((keq_iff k c).2 hkl)
+    rw [← hkc]; exact hk
+
+theorem C05_citation_spelling_engines_nonvacuous :
+    -- the file says `c1`, `C2`, `P`; `c2` and `p` are cited AFTER the wildcard, in another letter case:
+    -- both engines emit the citations' spellings (the unfiltered database would give `C2`, `P`:
+    -- `C05_spelling_exact_nonvacuous`)
+    (∀ p ∈ exFile, EntryWF p.2) ∧
+    (∀ c' ∈ strs ["C1", "*", "c2", "p"], keq c' "c2".toList = true → c' = "c2".toList) ∧
+    pythonEngine exFile (strs ["C1", "*", "c2", "p"]) 1 = some ⟨strs ["C1", "c2", "d", "x", "p"],
+      [Report.badCrossref "d".toList "nowhere".toList]⟩ ∧
+    bibtexEngine exFile (strs ["C1", "*", "c2", "p"]) 1 = some ⟨strs ["C1", "c2", "d", "x", "p"],
+      [Report.badCrossref "d".toList "nowhere".toList]⟩ ∧
+    -- inconsistent spellings (outside the quantifier): the engines disagree - the BibTeX engine emits the
+    -- first spelling cited, the Python engine the last one (the spelling the filtered database stores)
+    (bibtexEngine exFile (strs ["c1", "C1"]) 3).map (·.keys) = some (strs ["c1"]) ∧
+    (pythonEngine exFile (strs ["c1", "C1"]) 3).map (·.keys) = some (strs ["C1"]) := by decide
 
 /-- Reading the file restricted to the wanted citations (what both engines do) and then
 resolving gives the same KEYS, and the same dangling references of the cited entries, as reading
